@@ -158,9 +158,8 @@ func (w *World) location(from, to string, rng *rand.Rand) string {
 	forms := []string{abs}
 	if fh == th {
 		forms = append(forms, tp)
-		/* both directly under the root: a bare relative reference resolves against the issuer */
-		if strings.Count(fp, "/") == 1 && strings.Count(tp, "/") == 1 && !strings.ContainsAny(tp[1:], ":?#") && len(tp) > 1 {
-			forms = append(forms, tp[1:], "./"+tp[1:])
+		if rel := relativeRef(fp, tp); rel != "" {
+			forms = append(forms, rel, rel)
 		}
 	}
 	forms = append(forms, "//"+w.Sim.Host(th).Addr+tp)
@@ -250,4 +249,33 @@ func (s *Sim) PlainConnEvents(from int, accept func(c *ConnLog) string) []map[st
 		out = append(out, ConnEvent(c, s.hosts[c.Host].Addr, accept(c), path, query))
 	}
 	return out
+}
+
+// relativeRef returns a path-relative (or query-only) reference that resolves from the URL
+// with request-target `from` to the one with request-target `to` (RFC 3986 5.2), or "".
+func relativeRef(from, to string) string {
+	fpath, _, _ := strings.Cut(from, "?")
+	tpath, tquery, hasQuery := strings.Cut(to, "?")
+	if strings.ContainsAny(tpath, ":#") || strings.Contains(tpath, "//") {
+		return ""
+	}
+	if fpath == tpath && hasQuery {
+		return "?" + tquery
+	}
+	fdir := fpath[:strings.LastIndex(fpath, "/")+1]
+	tdir := tpath[:strings.LastIndex(tpath, "/")+1]
+	name := tpath[len(tdir):]
+	suffix := ""
+	if hasQuery {
+		suffix = "?" + tquery
+	}
+	if name == "" {
+		return ""
+	}
+	if fdir == tdir {
+		return name + suffix
+	}
+	/* climb out of the issuer's directory, then descend */
+	up := strings.Count(fdir, "/") - 1
+	return strings.Repeat("../", up) + tpath[1:] + suffix
 }
